@@ -426,6 +426,7 @@ func (p *Pool) worker() {
 	}
 	for ob := range p.ch {
 		t0 := time.Now()
+	again:
 		ms := ob.timeoutMs
 		ch := make(chan rr, 2)
 		run := func(ss *scriptSolver) {
@@ -480,8 +481,9 @@ func (p *Pool) worker() {
 			// exact form not proved: decide the toleranced form instead
 			ob.UsedTol = true
 			ob.Script, ob.Vars = ob.Script2, ob.Vars2
-			p.ch <- ob
-			continue
+			// decided here and now: re-queueing on p.ch can deadlock once the queue is full and
+			// every worker wants to re-queue (seen once on C03 thorough under load)
+			goto again
 		}
 		if final.res == "unknown" && ob.Kind == "assert" && ob.Script != "" {
 			// neither proved nor refuted: probe for a counterexample at concrete points of the
